@@ -51,10 +51,16 @@ def read_model_parameters(
 
     while soil.zSoil < crop.Zmax + 0.1:
         for i in soil.profile.index[::-1]:
-            if soil.profile.loc[i, "dz"] < 0.25:
+            # (compartments of the top soil keep their thickness: the water
+            # stress calculations need at least one compartment within z_top)
+            if (soil.profile.loc[i, "dz"] < 0.25) and (soil.profile.loc[i, "dzsum"] > soil.z_top):
                 soil.profile.loc[i, "dz"] += 0.1
                 soil.fill_nan()
                 break
+        else:
+            # no compartment left to thicken: extend the bottom one
+            soil.profile.loc[soil.profile.index[-1], "dz"] += 0.1
+            soil.fill_nan()
 
     # TODO: Why all these commented lines? The model does not allow rotations now?
     ###########
